@@ -2,7 +2,7 @@
 //
 //	rt <kind> <fields>   build the message from its fields, REAL marshal, REAL unmarshal of the result
 //	um <kind> <hex>      REAL unmarshal of arbitrary bytes (mutations of marshalled messages, random bytes)
-//	ex <kind> <hex>      kinds without a Lean model (clientHello, serverHello, certificateRequest, sessionState):
+//	ex <kind> <hex>      kinds without a Lean model here (sessionState, modelled under C44):
 //	                     real unmarshal under recover(); accepted values must survive marshal∘unmarshal unchanged
 //
 // all through the verif hooks of bfe_tls (zz_verif_c45.go); a panic is reported by vh as PANIC:<msg>.
@@ -15,8 +15,9 @@ import (
 	"github.com/bfenetworks/bfe/bfe_tls"
 )
 
-var kinds = []string{"fin", "ske", "cke", "shd", "cst", "npn", "nst", "cv0", "cv1", "crt"}
-var exKinds = []string{"chl", "shl", "cr0", "cr1", "sst"}
+var kinds = []string{"fin", "ske", "cke", "shd", "cst", "npn", "nst", "cv0", "cv1", "crt", "chl", "shl", "cr0", "cr1",
+	"chl", "shl", "chl"} // the hello messages carry most of the parsing logic: weighted up
+var exKinds = []string{"sst"}
 
 func parseFields(kind, fs string) ([][]byte, bool) {
 	if kind == "crt" {
@@ -100,6 +101,12 @@ func genLen(r *vh.Rand) int {
 func genFields(r *vh.Rand, kind string) string {
 	h := func(n int) string { return vh.Hex(r.Bytes(n)) }
 	switch kind {
+	case "chl":
+		return genCHL(r)
+	case "shl":
+		return genSHL(r)
+	case "cr0", "cr1":
+		return genCR(r, kind == "cr1")
 	case "shd":
 		return "-"
 	case "cst":
@@ -133,6 +140,18 @@ func genFields(r *vh.Rand, kind string) string {
 		return strings.Join(cs, ",")
 	}
 	return h(genLen(r))
+}
+
+// mutateK is mutate with half of the truncations placed on a structural boundary of the message
+func mutateK(r *vh.Rand, kind string, m []byte) []byte {
+	if r.Chance(1, 3) {
+		bs := boundaries(kind, m)
+		k := bs[r.Intn(len(bs))]
+		if k >= 0 && k <= len(m) {
+			return append([]byte(nil), m[:k]...)
+		}
+	}
+	return mutate(r, m)
 }
 
 func mutate(r *vh.Rand, m []byte) []byte {
@@ -198,47 +217,155 @@ func strs(r *vh.Rand, k int) []string {
 	return s
 }
 
+func flag(r *vh.Rand, num, den int) string {
+	if r.Chance(num, den) {
+		return "01"
+	}
+	return "00"
+}
+
+func flatStrs(r *vh.Rand, k, w int) []byte {
+	var out []byte
+	for _, s := range strs(r, k) {
+		if w == 2 {
+			out = append(out, byte(len(s)>>8))
+		}
+		out = append(out, byte(len(s)))
+		out = append(out, s...)
+	}
+	return out
+}
+
+func smallLen(r *vh.Rand) int {
+	n := genLen(r)
+	if n > 300 {
+		n = n % 300
+	}
+	return n
+}
+
+// clientHello fields: vers:random:sessionId:suites:comp:npn:sni:ocsp:curves:points:ticketOK:ticket:sigalgs:reneg:alpn
+func genCHL(r *vh.Rand) string {
+	h := func(n int) string { return vh.Hex(r.Bytes(n)) }
+	sid := []int{0, 1, 16, 31, 32, 32, 32}[r.Intn(7)]
+	if r.Chance(1, 40) {
+		sid = 33 // beyond the wire limit
+	}
+	rnd := 32
+	if r.Chance(1, 40) {
+		rnd = []int{0, 31, 33}[r.Intn(3)]
+	}
+	ns := r.Range(0, 12)
+	if r.Chance(1, 10) {
+		ns = []int{127, 128, 129}[r.Intn(3)]
+	}
+	suites := r.Bytes(2 * ns)
+	if ns > 0 && r.Chance(1, 6) { // TLS_EMPTY_RENEGOTIATION_INFO_SCSV
+		i := r.Intn(ns)
+		suites[2*i], suites[2*i+1] = 0, 0xff
+	}
+	sni := ""
+	if r.Chance(2, 3) {
+		sni = strs(r, 1)[0] + ".example"
+	}
+	tok := r.Chance(1, 2)
+	ticket := 0
+	if tok && r.Bool() {
+		ticket = smallLen(r)
+	}
+	if !tok && r.Chance(1, 30) {
+		ticket = 3 // ticket without ticketSupported: not marshalled (outside the wire limits)
+	}
+	alpn := []byte(nil)
+	if r.Bool() {
+		alpn = flatStrs(r, r.Range(1, 3), 1)
+	}
+	return strings.Join([]string{h(2), h(rnd), h(sid), vh.Hex(suites), h([]int{0, 1, 1, 2, 255}[r.Intn(5)]), flag(r, 1, 2),
+		vh.Hex([]byte(sni)), flag(r, 1, 2), h(2 * r.Intn(5)), h([]int{0, 0, 1, 3, 255}[r.Intn(5)]), map[bool]string{true: "01", false: "00"}[tok],
+		h(ticket), h(2 * r.Intn(6)), flag(r, 1, 3), vh.Hex(alpn)}, ":")
+}
+
+// serverHello fields: vers:random:sessionId:suite:comp:npn:protos:ocsp:ticketOK:reneg:alpn
+func genSHL(r *vh.Rand) string {
+	h := func(n int) string { return vh.Hex(r.Bytes(n)) }
+	sid := []int{0, 1, 16, 32, 32}[r.Intn(5)]
+	if r.Chance(1, 40) {
+		sid = 33
+	}
+	npn := r.Bool()
+	var protos []byte
+	if npn && r.Chance(2, 3) {
+		protos = flatStrs(r, r.Range(1, 3), 1)
+	}
+	alpn := ""
+	if r.Bool() {
+		alpn = strs(r, 1)[0]
+	}
+	return strings.Join([]string{h(2), h(32), h(sid), h(2), h(1), map[bool]string{true: "01", false: "00"}[npn], vh.Hex(protos),
+		flag(r, 1, 2), flag(r, 1, 2), flag(r, 1, 2), vh.Hex([]byte(alpn))}, ":")
+}
+
+// certificateRequest fields: types:sigalgs:cas(2-byte length prefixed)
+func genCR(r *vh.Rand, has bool) string {
+	h := func(n int) string { return vh.Hex(r.Bytes(n)) }
+	nt := []int{1, 1, 2, 3, 255, 0}[r.Intn(6)]
+	sig := 0
+	if has {
+		sig = 2 * r.Intn(6)
+	}
+	var cas []byte
+	for i := r.Intn(4); i > 0; i-- {
+		n := smallLen(r)
+		cas = append(cas, byte(n>>8), byte(n))
+		cas = append(cas, r.Bytes(n)...)
+	}
+	return strings.Join([]string{h(nt), h(sig), vh.Hex(cas)}, ":")
+}
+
 func genEx(r *vh.Rand, kind string) []byte {
-	u16s := func(k int) []uint16 {
-		var s []uint16
-		for i := 0; i < k; i++ {
-			s = append(s, uint16(r.Intn(65536)))
-		}
-		return s
+	var certs [][]byte
+	for i := r.Intn(4); i > 0; i-- {
+		certs = append(certs, r.Bytes(genLen(r)%400))
 	}
-	sid := r.Bytes([]int{0, 16, 32, 32, 33}[r.Intn(5)])
-	switch kind {
-	case "chl":
-		sni := ""
-		if r.Bool() {
-			sni = strs(r, 1)[0] + ".example"
+	return bfe_tls.VerifC45SessionState(uint16(0x0300+r.Intn(4)), uint16(r.Intn(65536)), r.Bytes([]int{0, 48, 48, 255, 256}[r.Intn(5)]), certs)
+}
+
+// boundaries lists the offsets at which a length prefix or a field of a hello message starts or ends
+// (fixed part, then every extension header and the first bytes of its body): truncating exactly there
+// (or one byte before/after) is what a missing bounds check trips over.
+func boundaries(kind string, m []byte) []int {
+	b := []int{0, 1, 4, 5, 6, 38, 39, 41, 42, 43}
+	if (kind != "chl" && kind != "shl") || len(m) < 39 {
+		for i := 0; i < len(m) && i < 12; i++ {
+			b = append(b, i)
 		}
-		var ticket []byte
-		if r.Bool() {
-			ticket = r.Bytes(genLen(r) % 400)
-		}
-		return bfe_tls.VerifC45ClientHello(uint16(0x0300+r.Intn(5)), r.Bytes(32), sid, u16s(r.Range(0, 20)), r.Bytes(r.Range(0, 3)),
-			r.Bool(), sni, r.Bool(), u16s(r.Intn(5)), r.Bytes(r.Intn(4)), r.Bool(), ticket, r.Bytes(2*r.Intn(6)), r.Bool(), strs(r, r.Intn(4)))
-	case "shl":
-		alpn := ""
-		if r.Bool() {
-			alpn = strs(r, 1)[0]
-		}
-		return bfe_tls.VerifC45ServerHello(uint16(0x0300+r.Intn(5)), r.Bytes(32), sid, uint16(r.Intn(65536)), byte(r.Intn(2)),
-			r.Bool(), strs(r, r.Intn(4)), r.Bool(), r.Bool(), r.Bool(), alpn)
-	case "cr0", "cr1":
-		var cas [][]byte
-		for i := r.Intn(4); i > 0; i-- {
-			cas = append(cas, r.Bytes(genLen(r)%300))
-		}
-		return bfe_tls.VerifC45CertificateRequest(kind == "cr1", r.Bytes(r.Range(0, 5)), r.Bytes(2*r.Intn(6)), cas)
-	default:
-		var certs [][]byte
-		for i := r.Intn(4); i > 0; i-- {
-			certs = append(certs, r.Bytes(genLen(r)%400))
-		}
-		return bfe_tls.VerifC45SessionState(uint16(0x0300+r.Intn(4)), uint16(r.Intn(65536)), r.Bytes([]int{0, 48, 48, 255, 256}[r.Intn(5)]), certs)
+		return b
 	}
+	o := 39 + int(m[38])
+	b = append(b, o-1, o, o+1, o+2)
+	if kind == "chl" {
+		if o+2 > len(m) {
+			return b
+		}
+		o += 2 + (int(m[o])<<8 | int(m[o+1]))
+		b = append(b, o-1, o, o+1)
+		if o+1 > len(m) {
+			return b
+		}
+		o += 1 + int(m[o])
+	} else {
+		o += 3
+	}
+	b = append(b, o-1, o, o+1, o+2)
+	o += 2
+	for o+4 <= len(m) {
+		l := int(m[o+2])<<8 | int(m[o+3])
+		b = append(b, o, o+1, o+2, o+3, o+4, o+5, o+6, o+7, o+8, o+9)
+		o += 4 + l
+		b = append(b, o-1)
+	}
+	b = append(b, o, len(m)-1)
+	return b
 }
 
 func gen(r *vh.Rand) string {
@@ -256,7 +383,11 @@ func gen(r *vh.Rand) string {
 		if len(m) > 3000 { // keep mutation cases small
 			return "um " + k + " " + vh.Hex(mutate(r, m[:r.Range(4, 64)]))
 		}
-		return "um " + k + " " + vh.Hex(mutate(r, m))
+		m = mutateK(r, k, m)
+		if r.Chance(1, 5) {
+			m = mutate(r, m)
+		}
+		return "um " + k + " " + vh.Hex(m)
 	default:
 		k := exKinds[r.Intn(len(exKinds))]
 		if r.Chance(1, 12) {
@@ -275,7 +406,7 @@ func main() {
 	vh.Pre = func(emit func(string), thorough bool) {
 		// every prefix of one well-formed message per kind (all truncation points), and the exact boundaries
 		r := vh.NewRand(45)
-		for _, k := range kinds {
+		for _, k := range []string{"fin", "ske", "cke", "shd", "cst", "npn", "nst", "cv0", "cv1", "crt", "cr0", "cr1"} {
 			fl, _ := parseFields(k, genFields(r, k))
 			m, _ := bfe_tls.VerifC45Marshal(k, fl)
 			if len(m) > 80 {
@@ -283,6 +414,26 @@ func main() {
 			}
 			for i := 0; i <= len(m); i++ {
 				emit("um " + k + " " + vh.Hex(m[:i]))
+			}
+		}
+		// hello messages with a 32-byte session id and every extension: every prefix
+		full := map[string]string{
+			"chl": "0303:" + vh.Hex(make([]byte, 32)) + ":" + vh.Hex(r.Bytes(32)) + ":c02fc02b00ff:0100:01:6578616d706c652e636f6d:01:0017001d:00:01:aabbcc:04010503:01:026832",
+			"shl": "0303:" + vh.Hex(make([]byte, 32)) + ":" + vh.Hex(r.Bytes(32)) + ":c02f:00:01:0268320468747470:01:01:01:6832",
+		}
+		for _, k := range []string{"chl", "shl"} {
+			fl, _ := parseFields(k, full[k])
+			m, _ := bfe_tls.VerifC45Marshal(k, fl)
+			emit("rt " + k + " " + full[k])
+			for i := 0; i <= len(m); i++ {
+				emit("um " + k + " " + vh.Hex(m[:i]))
+			}
+			for j := 0; j < 2; j++ {
+				fl, _ := parseFields(k, genFields(r, k))
+				m, _ := bfe_tls.VerifC45Marshal(k, fl)
+				for i := 0; i <= len(m) && i < 400; i++ {
+					emit("um " + k + " " + vh.Hex(m[:i]))
+				}
 			}
 		}
 		for _, k := range exKinds {
